@@ -95,9 +95,16 @@ func (in *Interp) callBuiltin(g *Goroutine, name string, args []Value, c *ssa.Ca
 		return in.ci(n)
 	case "delete":
 		m, _ := args[0].(*MapV)
+		if ins := in.curInstr(g); ins != nil {
+			in.raceMap(g, m, true, ins)
+		}
 		in.mapDelete(m, args[1])
 		return nil
 	case "close":
+		if ch := args[0].(*ChanV); ch != nil && in.raceActive(g) {
+			ch.closeVC = g.vc.clone()
+			g.tick()
+		}
 		in.chanClose(args[0].(*ChanV))
 		return nil
 	case "panic":
